@@ -10,7 +10,7 @@ EXPLANATION = ("Decision tables of ConnectStream::run (capsule / FIN / reset -> 
                "From<quinn::ConnectionError>, and the six Driver waiters are extracted from MIR on every path and compared "
                "with the reference rows; plus the EOF classification below it: GetVarint reports ImmediateFin iff no byte of the frame was consumed "
                "(state kept in the future, not in a poll-local), later fields and the eight read_frame mappings turn a FIN inside a frame into H3 FRAME_ERROR."
-               ' Also: the largest admissible close capsule (1024-byte reason) fits the frame payload cap of the readers (two cooperating constants).')
+               ' Also: the largest admissible close capsule (1024-byte reason) fits the frame payload cap of the readers (two cooperating constants). C04-R7: Connection::accept_uni / accept_bi / receive_datagram / open_uni / open_bi return exactly ConnectionError::with_driver_error(<the error of the driver call>, quic_connection) on failure.')
 NOT_DECIDED = ["that the event is delivered at every point of the session's life under a concrete schedule (see C05 finding F1)",
                "quinn's delivery of CONNECTION_CLOSE"]
 TRUSTED = ["rustc MIR", "u32::from_be_bytes / str::from_utf8 / slice indexing semantics (std)", "quinn::ConnectionError field meaning"]
@@ -83,3 +83,6 @@ def run(ctx):
 
     ctx.rule("C04-R5", "Driver waiters report queue closure as Err(self.result().await)")
     shared.driver_waiters(ctx, "C04-R5")
+
+    ctx.rule("C04-R7", "the public operations that wait on the peer build their error from the driver's error (capsule / clean-finish code and reason), not from the QUIC close reason alone")
+    shared.connection_error_source(ctx, "C04-R7", ("accept_uni", "accept_bi", "receive_datagram", "open_uni", "open_bi"))
